@@ -1,8 +1,15 @@
 #!/bin/bash
 # trimcache.sh [limit_gb]: the linked simulator binaries of many scratch trees pile up in the Go build cache (about 0.3 GB per
-# build); empty it when it exceeds the limit (default 30 GB). Used by the tools that build against many scratch trees, never by a check.
+# build); empty it when it exceeds the limit (default 30 GB) AND no Go build is running (emptying the cache under a running build
+# makes that build fail). Used by the tools that build against many scratch trees, never by a check.
 limit=${1:-30}
 d=$(GOTOOLCHAIN=local go env GOCACHE 2>/dev/null); [ -d "$d" ] || exit 0
 gb=$(du -s --block-size=1G "$d" 2>/dev/null | cut -f1)
-if [ "${gb:-0}" -gt "$limit" ]; then echo "trimcache: $d holds ${gb} GB, emptying" >&2; GOTOOLCHAIN=local go clean -cache 2>/dev/null; fi
+if [ "${gb:-0}" -gt "$limit" ]; then
+  if pgrep -x compile >/dev/null || pgrep -x link >/dev/null || pgrep -x go >/dev/null || pgrep -x go1.26.8 >/dev/null; then
+    echo "trimcache: $d holds ${gb} GB but a build is running; not touching it" >&2
+  else
+    echo "trimcache: $d holds ${gb} GB, emptying" >&2; GOTOOLCHAIN=local go clean -cache 2>/dev/null
+  fi
+fi
 exit 0
